@@ -203,6 +203,7 @@ type qgen struct {
 	vars    map[string]bool
 	nextVar int
 	stats   map[string]int
+	aliases map[string]int // (field, arguments) -> alias number: injective, so equal aliases never conflict
 	dups    bool // this query repeats aliases with different sub-selections (then it carries no directives)
 }
 
@@ -281,11 +282,13 @@ func (g *qgen) selsFor(typ string, depth int) []Sel {
 		// the alias is a function of (field, arguments), so equal aliases never conflict anywhere in the query
 		s.Alias = s.Name
 		if len(s.Args) > 0 {
-			h := uint64(14695981039346656037)
-			for _, ch := range []byte(argKey(s.Args)) {
-				h = (h ^ uint64(ch)) * 1099511628211
+			k := s.Name + argKey(s.Args)
+			n, ok := g.aliases[k]
+			if !ok {
+				n = len(g.aliases) + 1
+				g.aliases[k] = n
 			}
-			s.Alias = fmt.Sprintf("%s_%d", s.Name, h%997)
+			s.Alias = fmt.Sprintf("%s_%d", s.Name, n)
 		} else if r.Chance(25) {
 			s.Alias = fmt.Sprintf("%s_x", s.Name)
 		}
@@ -605,7 +608,7 @@ func genCase(r *vh.Rng) Case {
 			c.Selector[k] = o[r.Intn(len(o))]
 		}
 	}
-	g := &qgen{r: r, u: u, vars: map[string]bool{}, stats: map[string]int{}, dups: r.Chance(55)}
+	g := &qgen{r: r, u: u, vars: map[string]bool{}, stats: map[string]int{}, aliases: map[string]int{}, dups: r.Chance(55)}
 	c.Query = g.selsFor("Query", 2+r.Intn(3))
 	c.Frags = g.frags
 	c.Vars = g.vars
